@@ -144,3 +144,39 @@ def run(ctx):
     _run_before_api(ctx)
     import api_corr
     api_corr.run_api_corr(ctx)
+
+
+_run_before_large_limits = run
+
+
+def run(ctx):
+    large_error_limits(ctx)
+    _run_before_large_limits(ctx)
+
+
+def large_error_limits(ctx):
+    """max_errors is an ordinary integer: with one worker and N independent failing calls exactly min(k + 1, N) fail, also for
+    k around and above 128; with several workers at most k + max_workers"""
+    uj = core.use_repo()
+    for k, n in ((126, 140), (127, 140), (128, 150), (129, 150), (200, 260)):
+        for workers in (1, 3):
+            count = [0]
+            lock = __import__("threading").Lock()
+
+            def bad(i):
+                with lock:
+                    count[0] += 1
+                raise ValueError(i)
+            plan = uj.Plan()
+            calls = [plan.call(bad, i) for i in range(n)]
+            try:
+                uj.run(plan, output=calls, max_errors=k, max_workers=workers, progress=None)
+                oc = "returned"
+            except uj.CallError:
+                oc = "callerror"
+            ctx.case(("c10-large-limit", k, n, workers))
+            ok = oc == "callerror" and (count[0] == min(k + 1, n) if workers == 1 else k + 1 <= count[0] <= k + workers)
+            if not ok:
+                ctx.fail("large-limit", "max_errors=%d, max_workers=%d, %d independent failing calls: %d failed (run %s); %s"
+                         % (k, workers, n, count[0], oc, "exactly %d expected" % min(k + 1, n) if workers == 1 else "between %d and %d expected" % (k + 1, k + workers)),
+                         {"max_errors": k, "max_workers": workers, "failing_calls": n, "failed": count[0]})
